@@ -172,6 +172,9 @@ pub struct TypeChecker {
     // (function) type. Parameters, mutable variables and a function inside its own body are not
     // in here - they have one type.
     generalised: BTreeSet<usize>,
+    // The variables that have one type where we are now: the parameters and locals of the
+    // functions we are inside of, and every global that is not in `generalised`.
+    monomorphic: Vec<usize>,
 }
 
 #[derive(Clone, Debug, Copy)]
@@ -215,6 +218,7 @@ impl TypeChecker {
                 .collect(),
             type_declarations: BTreeSet::new(),
             generalised: BTreeSet::new(),
+            monomorphic: Vec::new(),
         };
         for var in variables {
             let ty = res.push_type(Type::Unknown);
@@ -449,6 +453,8 @@ impl TypeChecker {
             };
             if kind.immutable() && names_a_function {
                 self.generalised.insert(*var);
+            } else {
+                self.monomorphic.push(*var);
             }
             Ok(value_ret)
         } else {
@@ -763,7 +769,7 @@ impl TypeChecker {
                 }
                 let ty = var.ty;
                 if generalised && matches!(self.find_type(ty), Type::Function { .. }) {
-                    no_ret(self.copy(ty))
+                    no_ret(self.instantiate(ty))
                 } else {
                     no_ret(ty)
                 }
@@ -1002,6 +1008,7 @@ impl TypeChecker {
                 for branch in branches.iter() {
                     let name = branch.pattern.name.clone();
                     let constraint = &branch.variable.map(|var| self.variables[var].ty);
+                    self.monomorphic.extend(branch.variable);
                     self.add_constraint(
                         to_match,
                         *span,
@@ -1039,9 +1046,15 @@ impl TypeChecker {
             E::Function { name: _, params, ret, body, pure, span } => {
                 let (f_ty, ret_ty) = self.type_from_function(ctx, params, ret, *pure)?;
 
+                // Inside the body the parameters and the locals have one type - also for the
+                // functions defined in there.
+                let outside = self.monomorphic.len();
+                self.monomorphic
+                    .extend(params.iter().map(|(_, var, _, _)| *var));
                 let ctx = ctx.enter_function();
                 let ctx = if *pure { ctx.enter_pure() } else { ctx };
                 let (actual_ret, implicit_ret) = self.expression_block(*span, body, ctx)?;
+                self.monomorphic.truncate(outside);
                 let actual_ret = if ret.is_void() {
                     let void = Some(self.push_type(Type::Void));
                     self.unify_option(*span, ctx, actual_ret, void)?
@@ -1837,6 +1850,76 @@ impl TypeChecker {
 
     fn copy(&mut self, ty: TyID) -> TyID {
         let mut seen = HashMap::new();
+        self.inner_copy(ty, &mut seen)
+    }
+
+    /// The types a type is made of - and the types its constraints talk about.
+    fn parts(&mut self, ty: TyID) -> Vec<TyID> {
+        use Constraint as C;
+        let node = self.find_node(ty);
+        let mut parts = match &node.ty {
+            Type::Invalid
+            | Type::Unknown
+            | Type::Ty
+            | Type::Void
+            | Type::Nil
+            | Type::Int
+            | Type::Float
+            | Type::Bool
+            | Type::Str => Vec::new(),
+            Type::Tuple(tys) => tys.clone(),
+            Type::List(ty) => vec![*ty],
+            Type::Function(args, ret, _) => args.iter().chain(Some(ret)).cloned().collect(),
+            Type::ExternBlob(_, _, fields, args, _)
+            | Type::Blob(_, _, fields, args)
+            | Type::Enum(_, _, fields, args) => fields
+                .values()
+                .map(|(_, ty)| ty)
+                .chain(args.iter())
+                .cloned()
+                .collect(),
+        };
+        for (constraint, _) in node.constraints.iter() {
+            match constraint {
+                C::Add(x)
+                | C::Sub(x)
+                | C::Mul(x)
+                | C::DivTop(x)
+                | C::DivBot(x)
+                | C::DivRes(x)
+                | C::Equ(x)
+                | C::Cmp(x)
+                | C::CmpEqu(x)
+                | C::ConstantIndex(_, x)
+                | C::Field(_, x)
+                | C::Variant(_, Some(x)) => parts.push(*x),
+                C::Variant(_, None)
+                | C::Neg
+                | C::Num
+                | C::Enum
+                | C::TotalEnum(_)
+                | C::Variable => {}
+            }
+        }
+        parts
+    }
+
+    /// A fresh instance of the type of a function that can be used at several types. What the
+    /// type shares with the surroundings - the type of a parameter of the function we are in,
+    /// of a mutable variable - is not the function's own: that stays as it is.
+    fn instantiate(&mut self, ty: TyID) -> TyID {
+        let mut seen = HashMap::new();
+        let mut todo: Vec<TyID> = self
+            .monomorphic
+            .iter()
+            .map(|var| self.variables[*var].ty)
+            .collect();
+        while let Some(ty) = todo.pop() {
+            let ty = self.find(ty);
+            if seen.insert(ty, ty).is_none() {
+                todo.extend(self.parts(ty));
+            }
+        }
         self.inner_copy(ty, &mut seen)
     }
 
